@@ -58,8 +58,36 @@ fn data_field(datalen: usize, bad: u8) -> Val {
 /// Dimension values and data contents are symbolic (`dimsel` picks the dimension domain); the data
 /// length, the ill-typed field (if any) and the key-delivery mode are concrete per harness.
 pub fn document(pattern: u32, len: usize, dimsel: u8, datalen: usize, bad: u8, mode: u8) {
+    let (doc, data) = build(pattern, len, dimsel, datalen, bad, false);
+    let res: Result<TooDee<u8>, E> = TooDee::<u8>::deserialize(DocDe { doc: &doc, mode });
+    // (no panic anywhere: every panic-class check in the callee must pass)
+    if let Ok(t) = res {
+        judge(&doc, len, &t);
+        if t.data().len() > 0 {
+            let q = nd::below(t.data().len());
+            assert!(t.data()[q] == data[q], "ORACLE: accepted array's cells are not the document's");
+        }
+        nd_cover_accept();
+    }
+    end_reached!();
+}
+
+/// The same documents with `null` elements, read as `TooDee<()>` (the zero-sized instantiation of the
+/// Deserialize impl: lengths up to the limit carry no allocation, size_of::<T>() is 0).
+pub fn document_unit(pattern: u32, len: usize, dimsel: u8, datalen: usize, bad: u8, mode: u8) {
+    let (doc, _data) = build(pattern, len, dimsel, datalen, bad, true);
+    let res: Result<TooDee<()>, E> = TooDee::<()>::deserialize(DocDe { doc: &doc, mode });
+    if let Ok(t) = res {
+        judge(&doc, len, &t);
+        nd_cover_accept();
+    }
+    end_reached!();
+}
+
+fn build(pattern: u32, len: usize, dimsel: u8, datalen: usize, bad: u8, unit: bool) -> (Doc, [u8; 9]) {
     let mut doc = Doc::empty();
     doc.n = len;
+    doc.unit = unit;
     let mut p = pattern;
     let mut i = 0;
     let data = nd::bytes::<9>();
@@ -85,38 +113,32 @@ pub fn document(pattern: u32, len: usize, dimsel: u8, datalen: usize, bad: u8, m
         };
         i += 1;
     }
-    let res: Result<TooDee<u8>, E> = TooDee::<u8>::deserialize(DocDe { doc: &doc, mode });
-    // (no panic anywhere: every panic-class check in the callee must pass)
-    if let Ok(t) = res {
-        inv(&t);
-        let (c, r) = t.size();
-        // dimensions and data are those of *an* occurrence of each field in the document
-        let mut ok_c = false;
-        let mut ok_r = false;
-        let mut ok_d = false;
-        let mut j = 0;
-        while j < len {
-            match (doc.keys[j], doc.vals[j]) {
-                (Key::NumCols, Val::U64(v)) => ok_c |= v == c as u64,
-                (Key::NumRows, Val::U64(v)) => ok_r |= v == r as u64,
-                (Key::Data, Val::Seq(l)) => ok_d |= l == t.data().len(),
-                (Key::Unknown, _) => panic!("ORACLE: a document with an unknown field was accepted"),
-                _ => {}
-            }
-            j += 1;
+    (doc, data)
+}
+
+fn judge<T>(doc: &Doc, len: usize, t: &TooDee<T>) {
+    inv(t);
+    let (c, r) = t.size();
+    // dimensions and data are those of *an* occurrence of each field in the document
+    let mut ok_c = false;
+    let mut ok_r = false;
+    let mut ok_d = false;
+    let mut j = 0;
+    while j < len {
+        match (doc.keys[j], doc.vals[j]) {
+            (Key::NumCols, Val::U64(v)) => ok_c |= v == c as u64,
+            (Key::NumRows, Val::U64(v)) => ok_r |= v == r as u64,
+            (Key::Data, Val::Seq(l)) => ok_d |= l == t.data().len(),
+            (Key::Unknown, _) => panic!("ORACLE: a document with an unknown field was accepted"),
+            _ => {}
         }
-        assert!(ok_c, "ORACLE: accepted array's num_cols is not stated in the document");
-        assert!(ok_r, "ORACLE: accepted array's num_rows is not stated in the document");
-        assert!(ok_d, "ORACLE: accepted array's data length is not that of a data field in the document");
-        assert!((c == 0) == (r == 0), "ORACLE: accepted a document with exactly one zero dimension");
-        assert!(c.checked_mul(r) == Some(t.data().len()), "ORACLE: accepted dimensions overflow or disagree with the data length");
-        if t.data().len() > 0 {
-            let q = nd::below(t.data().len());
-            assert!(t.data()[q] == data[q], "ORACLE: accepted array's cells are not the document's");
-        }
-        nd_cover_accept();
+        j += 1;
     }
-    end_reached!();
+    assert!(ok_c, "ORACLE: accepted array's num_cols is not stated in the document");
+    assert!(ok_r, "ORACLE: accepted array's num_rows is not stated in the document");
+    assert!(ok_d, "ORACLE: accepted array's data length is not that of a data field in the document");
+    assert!((c == 0) == (r == 0), "ORACLE: accepted a document with exactly one zero dimension");
+    assert!(c.checked_mul(r) == Some(t.data().len()), "ORACLE: accepted dimensions overflow or disagree with the data length");
 }
 
 fn nd_cover_accept() {
